@@ -13,6 +13,7 @@
 -/
 import PolyVerif.Lemmas.Solids
 import PolyVerif.Lemmas.SolidsGeom
+import PolyVerif.Lemmas.SolidsMerge
 import PolyVerif.Gen.CubeTable
 import Mathlib.Tactic
 
@@ -69,6 +70,42 @@ theorem quadTris_eq_table : quadTris = unflat Gen.CubeTable.quadIndices := by de
 
 /-- the box built from six quads is closed once its 24 vertices are merged into the 8 corners -/
 theorem cubeQuads_closed_mod_merge : ClosedMod cubeQuadsPt cubeQuadsTris := by decide
+
+/-! ## The merge maps merge exactly the coincident positions (over ℝ)
+
+"once coincident positions are merged": the symbolic merge maps used above identify two vertices if and only if
+their real positions are equal — neither too much (which could fake closedness) nor too little (which could hide a
+doubled edge). -/
+
+/-- the welded sphere has no two vertices at the same position (it needs no merging) -/
+theorem uvSphere_positions_distinct {rows cols : Nat} {r : ℝ} (hr : 0 < r) (hR : 2 ≤ rows) (hC : 3 ≤ cols)
+    {v w : Nat} (hv : v < uvSphereNV rows cols) (hw : w < uvSphereNV rows cols)
+    (h : uvSpherePos r rows cols v = uvSpherePos r rows cols w) : v = w :=
+  uvSphere_pos_inj_aux hr hR hC hv hw h
+
+/-- unwelded sphere: two vertices are copies of the same welded vertex iff their positions coincide -/
+theorem uvSphereUnwelded_merge_exact {rows cols : Nat} {r : ℝ} (hr : 0 < r) (hR : 2 ≤ rows) (hC : 3 ≤ cols)
+    {v w : Nat} (hv : v < uvUnweldedNV rows cols) (hw : w < uvUnweldedNV rows cols) :
+    uvUnweldedSrc rows cols v = uvUnweldedSrc rows cols w ↔
+      uvUnweldedPos r rows cols v = uvUnweldedPos r rows cols w :=
+  uvUnwelded_merge_exact_aux hr hR hC hv hw
+
+/-- capped cylinder: `cylinderPt` identifies two vertices iff their positions coincide (seam column, cap rims) -/
+theorem cylinder_merge_exact {sides : Nat} {r H : ℝ} (hr : 0 < r) (hH : 0 < H) (hS : 3 ≤ sides)
+    {v w : Nat} (hv : v < cylinderNV sides false false) (hw : w < cylinderNV sides false false) :
+    cylinderPt sides v = cylinderPt sides w ↔ cylinderPos r H sides v = cylinderPos r H sides w :=
+  cylinder_merge_exact_aux hr hH hS hv hw
+
+/-- six-quad box: the corner table identifies two vertices iff their positions coincide -/
+theorem cubeQuads_merge_exact {w h d : ℝ} (hw : 0 < w) (hh : 0 < h) (hd : 0 < d)
+    {v v' : Nat} (hv : v < cubeQuadsNV) (hv' : v' < cubeQuadsNV) :
+    cubeQuadsPt v = cubeQuadsPt v' ↔ cubeQuadsPos w h d v = cubeQuadsPos w h d v' :=
+  cubeQuads_merge_exact_aux hw hh hd hv hv'
+
+/-- the welded box has no two vertices at the same position -/
+theorem cubeWelded_positions_distinct {w h d : ℝ} (hw : 0 < w) (hh : 0 < h) (hd : 0 < d)
+    {v v' : Nat} (hv : v < 8) (hv' : v' < 8) (e : cubeWeldedPos w h d v = cubeWeldedPos w h d v') : v = v' :=
+  cornerPos_inj hw hh hd hv hv' e
 
 /-! ## Outwardness (positions over ℝ: the real-number meaning of the constructors' expressions)
 
